@@ -20,7 +20,7 @@ import logging
 from typing import Any
 
 from hv.clock import patched_time
-from hv.gen import argnames
+from hv.gen import argnames, stacking
 from hv.loop import VClock, run_virtual
 from hv.record import Recorder
 
@@ -305,6 +305,7 @@ def argname_wrappers() -> dict[str, tuple[Any, bool, bool]]:
 def run(R: Recorder, tier: str, seed: int, shard: int, nshards: int) -> None:
     if shard == 0:
         argnames.check(R, "arguments", argname_wrappers())
+        stacking.check_retry(R, "attempts")
     R.flags["exhaustive"] = True
     R.flags["exhaustive_core"] = "full product of pruned outcome sequences x limits 1-4 x catching forms x delay forms x sync/async x scoped"
     logging.disable(logging.CRITICAL)
@@ -319,6 +320,9 @@ def run(R: Recorder, tier: str, seed: int, shard: int, nshards: int) -> None:
 def replay(R: Recorder, case: dict[str, Any]) -> None:
     if "argnames" in case:
         argnames.check(R, "arguments", argname_wrappers(), only=case["argnames"])
+        return
+    if "stacking" in case:
+        stacking.check_retry(R, "attempts", only=case["stacking"])
         return
     logging.disable(logging.CRITICAL)
     try:
